@@ -166,8 +166,10 @@ def check_case(W, datamap, s):
                 exp = [record(W, datamap, cfg, u, st, attrs, enc) for u, st in found_all]
                 got = json.loads(json.dumps(got, default=str))
                 exp = json.loads(json.dumps(exp, default=str))
-                if sorted(map(json.dumps, got)) != sorted(map(json.dumps, exp)):
+                if got != exp:
                     sig = "get-from-all-differs"
+                    if sorted(map(json.dumps, got)) == sorted(map(json.dumps, exp)):
+                        sig += "/order"
                     if len(got) > len(exp) and {json.dumps(g) for g in got} == {json.dumps(e) for e in exp}:
                         sig += "/same-sid-returned-more-than-once"
                     elif len(got) < len(exp):
@@ -187,6 +189,7 @@ def searches(ref, W, k):
         if ">" in s and k < 2:
             continue
         yield s
+    yield from c11.cross_basetype_last(ref, W)      # sorted answers over several basetypes: the order clause
     # overlapping alternatives
     for p in sorted(W.store.paths)[:: max(1, len(W.store.paths) // 15)]:
         segs = p.split("/")
